@@ -282,6 +282,9 @@ def run(ctx):
         c13.r1(sub, 'DfsPre', m['new'])
         disc = c13.r2(sub, 'DfsPre', m)
         c13.r4(sub, 'DfsPre', m, disc)
+        sub2 = Ctx(ctx.facts, ctx.tier, ctx.prop)
+        c13.r5_skip(sub2, 'DfsPre', m)
+        sub.insts += [i for i in sub2.insts if i.site.endswith('::new#last_push')]   # a skip before the first reported node must be a no-op
         for i in sub.insts:
             i.rule = 'C09.R4'
             ctx.insts.append(i)
